@@ -112,8 +112,8 @@ Proof.
     apply put_all_nodup; [reflexivity|assumption].
 Qed.
 
-(* ---- the invariant of accepted definitions: own attributes have distinct names and carry the
-        implicit value of given_or_derived, all along the parent chain ---- *)
+(* ---- the invariant of accepted definitions: own attributes have distinct names, a given_or_derived
+        attribute carries no value or the implicit undef, a constant has a value, all along the parent chain ---- *)
 
 Fixpoint def_okb (d : objdef) : bool :=
   match d with
@@ -140,9 +140,6 @@ Qed.
 
 (* ---- attribute.initialize ---- *)
 
-Lemma inst_undef_optional t : inst t VUndef = true -> is_optional_ty t = true.
-Proof. destruct t; cbn; intros H; try discriminate; reflexivity. Qed.
-
 Lemma new_attribute_wf name spec a : new_attribute name spec = Ok a -> attr_wf a = true.
 Proof.
   unfold new_attribute. destruct (negb (struct_inst attribute_schema (VHash spec))); [discriminate|].
@@ -159,9 +156,7 @@ Proof.
   - destruct (kind_eqb knd KConstant) eqn:Ec; [discriminate|]. inversion H; subst a. unfold attr_wf. cbn [a_kind a_value].
     rewrite Ec. cbn [negb orb andb]. rewrite andb_true_r.
     destruct (kind_eqb knd KGivenOrDerived) eqn:E; [|reflexivity]. cbn [negb orb andb].
-    destruct (inst typ VUndef) eqn:Ei; cbn [negb].
-    + now rewrite (inst_undef_optional typ Ei).
-    + reflexivity.
+    now destruct (is_optional_ty _).
 Qed.
 
 Lemma attr_of_spec_wf k v a : attr_of_spec k v = Ok a -> attr_wf a = true.
@@ -258,28 +253,26 @@ Proof.
 Qed.
 
 Lemma check_ser_spec own pm : forall names attrs b,
-  Forall2 (fun n a => lookup_member own pm n = Some a) names attrs -> forallb attr_wf attrs = true ->
+  Forall2 (fun n a => lookup_member own pm n = Some a) names attrs ->
   check_serialization names own pm b = Ok tt ->
   forallb (fun a => is_ctor_kind (a_kind a)) attrs = true /\
   (if b then forallb is_opt_attr attrs = true
-   else req_prefix attrs (length (filter (fun a => negb (has_value a)) attrs)) = true).
+   else req_prefix attrs (length (filter (fun a => negb (is_opt_attr a)) attrs)) = true).
 Proof.
-  intros names attrs b HF. revert b. induction HF as [|n a names attrs Hna HF IH]; intros b Hw H.
+  intros names attrs b HF. revert b. induction HF as [|n a names attrs Hna HF IH]; intros b H.
   - cbn. split; [reflexivity|]. now destruct b.
-  - cbn [check_serialization] in H. rewrite Hna in H. cbn [forallb] in Hw. apply andb_true_iff in Hw as [Ha Hw].
+  - cbn [check_serialization] in H. rewrite Hna in H.
     destruct (kind_eqb (a_kind a) KConstant || kind_eqb (a_kind a) KDerived) eqn:Ek; [discriminate|].
     cbn [forallb filter]. unfold is_ctor_kind at 1. rewrite Ek. cbn [negb andb].
-    pose proof (attr_wf_opt a Ha) as Ho.
     destruct (is_opt_attr a) eqn:Eo.
-    + destruct (IH true Hw H) as [Hc Hopt]. split; [assumption|]. rewrite <- Ho. cbn [negb].
+    + destruct (IH true H) as [Hc Hopt]. split; [assumption|]. cbn [negb].
       destruct b; cbn [andb]; [assumption|].
-      assert (E0 : filter (fun a => negb (has_value a)) attrs = []).
-      { clear - Hopt Hw. induction attrs as [|x r IHr]; [reflexivity|]. cbn [forallb filter] in *.
-        apply andb_true_iff in Hopt as [Hx Hr]. apply andb_true_iff in Hw as [Hwx Hwr].
-        rewrite <- (attr_wf_opt x Hwx), Hx. cbn [negb]. now apply IHr. }
+      assert (E0 : filter (fun a => negb (is_opt_attr a)) attrs = []).
+      { clear - Hopt. induction attrs as [|x r IHr]; [reflexivity|]. cbn [forallb filter] in *.
+        apply andb_true_iff in Hopt as [Hx Hr]. rewrite Hx. cbn [negb]. now apply IHr. }
       rewrite E0. cbn [length req_prefix]. rewrite Eo. now apply req_prefix_zero.
-    + destruct b; [discriminate|]. destruct (IH false Hw H) as [Hc Hp]. split; [assumption|].
-      rewrite <- Ho. cbn [negb length req_prefix]. now rewrite Eo.
+    + destruct b; [discriminate|]. destruct (IH false H) as [Hc Hp]. split; [assumption|].
+      cbn [negb length req_prefix]. now rewrite Eo.
 Qed.
 
 Lemma cai_some all names equality info own pm :
@@ -304,7 +297,7 @@ Proof.
   assert (Hmap : map a_name attrs = names).
   { clear - Hl. induction Hl as [|n x names attrs Hx _ IH]; [reflexivity|]. cbn [map]. apply find_attr_some in Hx as [_ ->].
     now rewrite IH. }
-  destruct (check_ser_spec own pm names attrs false) as [Hc Hp]; [|assumption|assumption|].
+  destruct (check_ser_spec own pm names attrs false) as [Hc Hp]; [|assumption|].
   { clear - Hl Hlm. induction Hl; constructor; auto. now rewrite Hlm. }
   split; [|split; [|split]].
   - apply info_wf_intro; [now rewrite Hmap|exact Hp|exact Hwa].
@@ -450,13 +443,22 @@ Section Accepted.
   Let Hwf : info_wf (d_info d) = true.
   Proof. destruct (accepted_facts d Hacc) as (_ & _ & H). exact (lo_wf d (H Hser)). Qed.
 
-  Lemma acc_pos_named_equal args o : positional args -> new_object d args = Ok o ->
-    exists o', new_object d [VHash (combine (map a_name (ai_attrs (d_info d))) args)] = Ok o' /\
-               obj_eqb o o' = Ok true /\ obj_eqb o' o = Ok true.
+  Lemma acc_pos_named_equal args o : named_dispatch (d_info d) args = None -> new_object d args = Ok o ->
+    let h := combine (map a_name (ai_attrs (d_info d))) args in
+    named_dispatch (d_info d) [VHash h] = Some h /\
+    exists o', new_object d [VHash h] = Ok o' /\ obj_eqb o o' = Ok true /\ obj_eqb o' o = Ok true.
   Proof. exact (pos_named_equal_info d args o Hwf). Qed.
 
+  Lemma acc_named_pos_equal args o' :
+    let h := combine (map a_name (ai_attrs (d_info d))) args in
+    (length args <= length (ai_attrs (d_info d)))%nat ->
+    named_dispatch (d_info d) [VHash h] = Some h -> new_object d [VHash h] = Ok o' ->
+    named_dispatch (d_info d) args = None ->
+    exists o, new_object d args = Ok o /\ obj_eqb o o' = Ok true /\ obj_eqb o' o = Ok true.
+  Proof. exact (named_pos_equal_info d args o' Hwf). Qed.
+
   Lemma acc_init_hash_roundtrip args o : new_object d args = Ok o ->
-    exists h o', init_hash o = Ok h /\ new_object d [VHash h] = Ok o' /\
+    exists h o', init_hash o = Ok h /\ named_dispatch (d_info d) [VHash h] = Some h /\ new_object d [VHash h] = Ok o' /\
                  obj_eqb o o' = Ok true /\ obj_eqb o' o = Ok true.
   Proof. exact (init_hash_roundtrip_info d args o Hwf). Qed.
 
@@ -467,21 +469,22 @@ Section Accepted.
     intros Hin Hk. destruct (accepted_facts d Hacc) as (_ & _ & H). apply In_nth_error. now apply (lo_complete d (H Hser)).
   Qed.
 
-  Lemma acc_get_positional args o a : positional args -> new_object d args = Ok o ->
+  Lemma acc_get_positional args o a : named_dispatch (d_info d) args = None -> new_object d args = Ok o ->
     In a (collect_attributes d) -> is_ctor_kind (a_kind a) = true ->
     exists i, nth_error (ai_attrs (d_info d)) i = Some a /\
       get o (a_name a) = Ok (Some (match nth_error args i with Some v => v | None => default_of a end)) /\
-      (nth_error args i = None -> a_value a <> None).
+      (nth_error args i = None -> is_opt_attr a = true).
   Proof.
     intros Hpos Hnew Hin Hk. destruct (acc_layout a Hin Hk) as (i & Hi). exists i. split; [exact Hi|].
     exact (get_positional_info d args o i a Hwf Hpos Hnew Hi).
   Qed.
 
-  Lemma acc_get_named h o a : new_object d [VHash h] = Ok o ->
+  Lemma acc_get_named args h o a : named_dispatch (d_info d) args = Some h -> new_object d args = Ok o ->
     In a (collect_attributes d) -> is_ctor_kind (a_kind a) = true ->
-    get o (a_name a) = Ok (Some (given_or_default h a)) /\ (hget h (a_name a) = None -> a_value a <> None).
+    get o (a_name a) = Ok (Some (given_or_default h a)) /\ (hget h (a_name a) = None -> is_opt_attr a = true).
   Proof.
-    intros Hnew Hin Hk. destruct (acc_layout a Hin Hk) as (i & Hi). apply (get_named_info d h o a Hwf Hnew). eapply nth_error_In; eauto.
+    intros Hd Hnew Hin Hk. destruct (acc_layout a Hin Hk) as (i & Hi). apply (get_named_info d args h o a Hwf Hd Hnew).
+    eapply nth_error_In; eauto.
   Qed.
 
   (* a constant reads its declared value through the type, whatever the object *)
@@ -552,26 +555,28 @@ Proof. intros H. exists ([] ++ [d]). split; [eapply ae_def; [constructor|exact H
 (* a required attribute left out of the serialization list can never be given: the object is
    constructed without it and Get finds nothing *)
 Lemma serialization_omit_refuted :
-  exists d args o a, accepted d /\ ser_complete d = false /\ positional args /\ new_object d args = Ok o /\
-    In a (collect_attributes d) /\ is_ctor_kind (a_kind a) = true /\ a_value a = None /\
+  exists d args o a, accepted d /\ ser_complete d = false /\ named_dispatch (d_info d) args = None /\
+    new_object d args = Ok o /\
+    In a (collect_attributes d) /\ is_ctor_kind (a_kind a) = true /\ is_opt_attr a = false /\
     get o (a_name a) = Ok None.
 Proof.
   destruct (define RText [] [84; 97]%N kf_omit) as [d|] eqn:E; [|vm_compute in E; discriminate].
   exists d, [VInt 1]. pose proof (accepted_single _ _ _ E) as Hacc. vm_compute in E. inversion E; subst d. clear E.
   eexists. exists (mkAttr [98]%N KNormal (TInteger min_int64 max_int64) None false false).
-  split; [exact Hacc|]. split; [reflexivity|]. split; [intros h; discriminate|]. split; [vm_compute; reflexivity|].
+  split; [exact Hacc|]. split; [reflexivity|]. split; [reflexivity|]. split; [vm_compute; reflexivity|].
   split; [vm_compute; auto|]. repeat split.
 Qed.
 
 (* a name listed twice: the first of the two positions is lost, the value given for it does not read back *)
 Lemma serialization_twice_refuted :
-  exists d args o a, accepted d /\ ser_complete d = false /\ positional args /\ new_object d args = Ok o /\
+  exists d args o a, accepted d /\ ser_complete d = false /\ named_dispatch (d_info d) args = None /\
+    new_object d args = Ok o /\
     nth_error (ai_attrs (d_info d)) 0 = Some a /\ nth_error args 0 = Some (VInt 1) /\
     get o (a_name a) = Ok (Some (VInt 2)).
 Proof.
   destruct (define RText [] [84; 97]%N kf_twice) as [d|] eqn:E; [|vm_compute in E; discriminate].
   exists d, [VInt 1; VInt 2]. pose proof (accepted_single _ _ _ E) as Hacc. vm_compute in E. inversion E; subst d. clear E.
-  do 2 eexists. split; [exact Hacc|]. split; [reflexivity|]. split; [intros h; discriminate|].
+  do 2 eexists. split; [exact Hacc|]. split; [reflexivity|]. split; [reflexivity|].
   split; [vm_compute; reflexivity|]. split; [reflexivity|]. split; reflexivity.
 Qed.
 
@@ -727,18 +732,11 @@ Qed.
 Lemma new_object_total d args : info_wf (d_info d) = true ->
   (exists o, new_object d args = Ok o) \/ new_object d args = Err EIllegalArguments.
 Proof.
-  intros Hwf. destruct (classic_positional args) as [Hpos|(h & ->)].
-  - assert (Hgen : new_object d args =
-                   if tuple_inst (map a_type (ai_attrs (d_info d)))
-                        (count_required (ai_attrs (d_info d)) O (ai_req (d_info d)))
-                        (length (map a_type (ai_attrs (d_info d)))) args
-                   then ctor_positional d args else Err EIllegalArguments).
-    { unfold new_object. destruct args as [|v [|v2 r]]; try reflexivity; destruct v; try reflexivity.
-      exfalso. now apply (Hpos l). }
-    rewrite Hgen. destruct (tuple_inst _ _ _ args); [left; unfold ctor_positional; eauto|now right].
-  - cbn [new_object]. destruct (struct_inst (init_struct (d_info d)) (VHash h)) eqn:E; [|now right]. left.
+  intros Hwf. unfold new_object. cbv zeta. destruct (named_dispatch (d_info d) args) as [h|] eqn:Hd.
+  - left. apply named_dispatch_some in Hd as [-> E].
     apply (struct_inst_init_spec _ h Hwf) in E as (Hh & Hent & Hreq).
     destruct (pfh_spec _ h Hwf Hh Hreq) as (vals & Ev & _). unfold ctor_named. rewrite Ev. cbn [bind]. eauto.
+  - destruct (tuple_inst _ _ _ args); [left; unfold ctor_positional; eauto|now right].
 Qed.
 
 Lemma acc_new_object_total d args : accepted d -> ser_complete d = true ->
